@@ -469,3 +469,10 @@ Definition chk_dtype (c : rawcase) : float :=
            end in
   if negb (bad s) && dt_eqb (v_dt s) (dt_of (znth z 5)) && dt_eqb (e_dt s) (dt_of (znth z 6)) && zb (znth z 7)
   then 0%float else PrimFloat.infinity.
+
+(* ================= file codec (C18): fl = [xs; ys; rx; ry]  zs = bytes of the file the implementation wrote
+   out is unused; rx, ry = what np.loadtxt returned for that file ================= *)
+From PyStoG Require Import CodecM CodecExec.
+Definition chk_codec (c : rawcase) : float :=
+  let '(w, r) := codec_check (lnth (fl c) 0) (lnth (fl c) 1) (zs c) (lnth (fl c) 2) (lnth (fl c) 3) in
+  if w && r then 0%float else if w then 1%float else PrimFloat.infinity.
